@@ -2,6 +2,7 @@ package main
 
 import (
 	"bufio"
+	"context"
 	"crypto/sha256"
 	"encoding/json"
 	"flag"
@@ -93,6 +94,8 @@ func newRunCtx(engine string, args []string) (*runCtx, error) {
 	}
 	return c, nil
 }
+
+func (c *runCtx) ctx() context.Context { return context.Background() }
 
 func (c *runCtx) thorough() bool { return c.tier == "thorough" }
 
